@@ -166,6 +166,9 @@ func (g *lineGen) accepts(o *gopt, raw string) bool {
 	if o.base == nil {
 		return raw != "reject"
 	}
+	if o.slice && strings.HasPrefix(o.base.name, "float") {
+		return false // unhandled type
+	}
 	_, err := o.base.parse(raw)
 	return err == nil
 }
@@ -327,8 +330,14 @@ func genDecl(r *hx.Rng, g *lineGen, usedKeys map[string]bool) {
 		o.base = b
 		o.slice = r.Chance(1, 3)
 		// every slice type of the documented list plus []int / []uint which values.go also handles
+		// *[]float32 / *[]float64 are NOT among them: values.go has no case, every Set answers "unhandled type" and the parse
+		// is fatal (Cmd.Kind.supported); declared now and then, such a line runs in a child
 		if o.slice && (b.name == "float32" || b.name == "float64") {
-			o.slice = false
+			if r.Chance(1, 2) {
+				o.slice = false
+			} else {
+				g.risky = true
+			}
 		}
 		o.kind = b.name
 		if o.slice {
